@@ -141,6 +141,36 @@ fn seq_rt<A: Sx>(pr: &Produced<A>, out: &mut Out) {
             (format!("{cn}/seq-{fmt}/deserialized-value-behaves-differently-under-edits"), format!("{}: push/push/truncate on the deserialized value and on the original diverge: {:?}", pr.name, r))
         });
     }
+    // composition: a sequence followed by other values in one binary stream; the deserializer must consume
+    // exactly what the serializer wrote
+    out.stage = "Seq inside tuples / vectors in one bincode stream";
+    let r = catch(|| -> Result<bool, String> {
+        let tuple = (pr.seq.clone(), 0xA5A5_u32, String::from("tail"), pr.seq.clone());
+        let bytes = bincode::serialize(&tuple).map_err(|e| format!("serialize tuple: {e}"))?;
+        let back: (Seq<A>, u32, String, Seq<A>) = bincode::deserialize(&bytes).map_err(|e| format!("deserialize tuple: {e}"))?;
+        let v = vec![pr.seq.clone(), Seq::<A>::new(), pr.seq.clone()];
+        let vb = bincode::serialize(&v).map_err(|e| format!("serialize vec: {e}"))?;
+        let vback: Vec<Seq<A>> = bincode::deserialize(&vb).map_err(|e| format!("deserialize vec: {e}"))?;
+        // several values written back to back
+        let mut w: Vec<u8> = Vec::new();
+        bincode::serialize_into(&mut w, &pr.seq).map_err(|e| e.to_string())?;
+        bincode::serialize_into(&mut w, &7u64).map_err(|e| e.to_string())?;
+        bincode::serialize_into(&mut w, &pr.seq).map_err(|e| e.to_string())?;
+        let mut cur = std::io::Cursor::new(&w);
+        let a: Seq<A> = bincode::deserialize_from(&mut cur).map_err(|e| format!("stream 1: {e}"))?;
+        let k: u64 = bincode::deserialize_from(&mut cur).map_err(|e| format!("stream 2: {e}"))?;
+        let b: Seq<A> = bincode::deserialize_from(&mut cur).map_err(|e| format!("stream 3: {e}"))?;
+        let single = bincode::serialize(&pr.seq).map_err(|e| e.to_string())?;
+        let size = bincode::serialized_size(&pr.seq).map_err(|e| e.to_string())?;
+        let j = serde_json::to_string(&(pr.seq.clone(), 5u8, vec![pr.seq.clone()])).map_err(|e| e.to_string())?;
+        let jb: (Seq<A>, u8, Vec<Seq<A>>) = serde_json::from_str(&j).map_err(|e| format!("json tuple: {e}"))?;
+        Ok(back.0 == pr.seq && back.1 == 0xA5A5 && back.2 == "tail" && back.3 == pr.seq
+            && vback.len() == 3 && vback[0] == pr.seq && vback[1].is_empty() && vback[2] == pr.seq
+            && a == pr.seq && k == 7 && b == pr.seq && cur.position() as usize == w.len()
+            && size as usize == single.len()
+            && jb.0 == pr.seq && jb.1 == 5 && jb.2.len() == 1 && jb.2[0] == pr.seq)
+    });
+    out.check(r == Ok(Ok(true)), || (format!("{cn}/seq-serde/does-not-compose-in-a-stream"), format!("{} (len {}): {:?}", pr.name, pr.codes.len(), r)));
     out.observe(&(A::CID, pr.codes.len(), pr.codes.first().copied()));
 }
 
